@@ -72,7 +72,8 @@ func verifStub_outDelete(o *outputstream.OutputStream, id robust.Id) error {
 }
 
 func vStoreEntry(s *raftstore.LevelDBStore, idx uint64, unixNano int64) {
-	m := robust.Message{Session: robust.Id{Id: 1}, Type: robust.IRCFromClient, Data: "PING", UnixNano: unixNano}
+	// any replicated entry type, including entries already marked as message of death
+	m := robust.Message{Session: robust.Id{Id: 1}, Type: robust.Type(nondetI64In(0, 6)), Data: "PING", UnixNano: unixNano}
 	data, err := proto.Marshal(m.ProtoMessage())
 	verifAssume(err == nil)
 	l := &pb.RaftLog{Index: idx, Term: 1, Type: pb.RaftLog_LogType(raft.LogCommand), Data: append([]byte{'p'}, data...), AppendedAt: timestamppb.New(time.Unix(0, 0))}
